@@ -160,6 +160,34 @@ var profC05 = Profile{
 	MaxProcs: 5, MaxItems: 4, Bufsizes: []int{0, 1, 2, 3}, MaxSlots: 4,
 	Params: true, MultiOut: true, FanIn: true, FanOut: true, NoPort: true, Sinkless: true,
 	Subdirs: true, Cores: true, TwoSources: true, Zip: true, RunTo: true, Joins: true, EmptyOuts: true,
+	// (Go-function tasks take and return their slots on a code path of their own)
+	Custom: true,
+}
+
+// lightReturnOracle: liveness and the return-instant clauses only (for
+// workloads whose files the reference does not predict: nested workflows, a
+// run that legitimately stops with an error).
+func lightReturnOracle(inc *Inc, mustComplete bool) Verdict {
+	s := inc.Sim
+	if v, ok := inconclusiveEnd(inc); ok {
+		return v
+	}
+	if s.End == simrt.EndDeadlock {
+		return Viol("deadlock", deadlockSig(inc), "Run never returns: %s", endDesc(inc))
+	}
+	if !inc.RT.RunReturned {
+		if mustComplete {
+			return Viol("no-completion", "end="+s.End.String(), "well-formed workflow did not complete: %s", endDesc(inc))
+		}
+		return OK()
+	}
+	if len(inc.RT.ReturnRunning) > 0 {
+		return Viol("early-return", "light", "Run returned while command(s) still executing: %v", inc.RT.ReturnRunning)
+	}
+	if left := Leftovers(inc.RT.ReturnSnap); len(left) > 0 {
+		return Viol("early-return/tmp-left", "light", "Run returned but temp directories / FIFOs of the run are left behind: %v", left)
+	}
+	return OK()
 }
 
 // returnOracle checks the state at the instant Run returned.
@@ -286,6 +314,47 @@ func init() {
 				seenBase[baseName(p)] = true
 			}
 			switch pick {
+			case 3, 4:
+				// a Go-function task runs a nested workflow (slots of its own) before it
+				// writes its outputs: Run of the outer one still returns, nothing left
+				for i := range w.Nodes {
+					if n := &w.Nodes[i]; n.Kind == KProc && n.Custom != 0 && len(n.Ins) > 0 && !n.Ins[0].Join {
+						n.Nest = 1 + c.Tape.Choose(simrt.StGen, 2, 0)
+						c.Probe("nested-workflow")
+						c.Sample = sample(w)
+						inc := RunInc(w, c.Tape, nil, 0, IncOpts{KillAt: -1, Strategy: strategyOf(c.Tape), Trace: c.Trace})
+						c.Absorb(inc)
+						return lightReturnOracle(inc, true)
+					}
+				}
+			case 5:
+				// an extra file of one task cannot be moved out of the temp directory
+				// (a directory of that name is in the way): stopping with an error is
+				// fine - but if Run returns, nothing of the run may be left behind
+				for i := range w.Nodes {
+					n := &w.Nodes[i]
+					if !(n.Kind == KProc && n.Custom == 0 && len(n.Ins) > 0 && !n.Ins[0].Join && len(n.Outs) > 0 && len(n.Extras) == 0) {
+						continue
+					}
+					n.Extras = []string{"blocked_{i:" + n.Ins[0].Name + "|basename}"}
+					ex1 := Eval(w)
+					k := 0
+					for _, tk := range ex1.Tasks {
+						if tk.Node == i && k < 1 {
+							w.Dirs = append(w.Dirs, "/work/blocked_"+baseName(tk.Ins[n.Ins[0].Name].Path))
+							k++
+						}
+					}
+					if k == 0 {
+						n.Extras = nil
+						break
+					}
+					c.Fault("extra-file-blocked-by-a-directory")
+					c.Sample = "an extra file cannot be moved out: " + sample(w)
+					inc := RunInc(w, c.Tape, nil, 0, IncOpts{KillAt: -1, Strategy: strategyOf(c.Tape), Trace: c.Trace})
+					c.Absorb(inc)
+					return lightReturnOracle(inc, false)
+				}
 			case 1:
 				// a command that prints a long progress bar (no newline) on its standard
 				// output: more than a pipe and a line buffer hold together
